@@ -75,6 +75,14 @@ Theorem C10_vec_partial : forall (hist : Qc -> list Qc) start (par dpar : nat ->
 Proof. exact vec_refines. Qed.
 Print Assumptions C10_vec_partial.
 
+(* with the proposed repair (fixes/proposed_fix_C10_F5.diff: refuse non-uniform delay vectors) no guard is left *)
+Theorem C10_vec_after_fix : forall (hist : Qc -> list Qc) start (par dpar : nat -> nat -> Qc) n m md t y (uniform : bool),
+  (uniform = true -> forall p u, (u < n)%nat -> dpar p u = dpar p 0%nat) ->
+  vimpl_eval_checked uniform hist start par dpar n m md t y =
+  if uniform then Some (vspec_eval hist start par dpar n m md t y) else None.
+Proof. exact vec_checked_refines. Qed.
+Print Assumptions C10_vec_after_fix.
+
 (* F5: two units, x' = x(t - d0) with d0 = (1, 2), hist(t) = (t, t): unit 1 must read hist(t-2) and reads hist(t-1) *)
 Theorem C10_vec_refuted_delay_parameter : ~ C10_vec_full_statement.
 Proof.
